@@ -10,6 +10,7 @@ import SeataModel.Driver.C19
 import SeataModel.Driver.C14
 import SeataModel.Driver.C15
 import SeataModel.Driver.C08
+import SeataModel.Driver.C06
 
 open Seata.Driver
 
@@ -23,6 +24,7 @@ def dispatch (prop : String) (ws : List String) : String :=
   | "C14" => C14.handle ws
   | "C15" => C15.handle ws
   | "C08" => C08.handle ws
+  | "C06" => C06.handle ws
   | _ => "bad-prop"
 
 partial def loop (hin : IO.FS.Stream) (hout : IO.FS.Stream) : IO Unit := do
